@@ -286,6 +286,53 @@ func (r *Registry) findFunc(pkgPath, key string) (*types.Func, *ast.FuncDecl, *p
 			}
 		}
 	}
+	// "Var.Field": the function literal a package-level variable's composite literal gives to that field
+	// (var RetryKind = &Kind{DefaultPolicy: func() Policy {...}}), verified as a function of its own
+	if i := strings.Index(key, "."); i > 0 {
+		vname, fname := key[:i], key[i+1:]
+		for _, f := range p.Syntax {
+			for _, d := range f.Decls {
+				gd, ok := d.(*ast.GenDecl)
+				if !ok || gd.Tok != token.VAR {
+					continue
+				}
+				for _, sp := range gd.Specs {
+					vs := sp.(*ast.ValueSpec)
+					for k, n := range vs.Names {
+						if n.Name != vname || k >= len(vs.Values) {
+							continue
+						}
+						e := ast.Expr(vs.Values[k])
+						if u, ok := e.(*ast.UnaryExpr); ok && u.Op == token.AND {
+							e = u.X
+						}
+						cl, ok := e.(*ast.CompositeLit)
+						if !ok {
+							continue
+						}
+						for _, el := range cl.Elts {
+							kv, ok := el.(*ast.KeyValueExpr)
+							if !ok {
+								continue
+							}
+							kid, ok := kv.Key.(*ast.Ident)
+							lit, ok2 := kv.Value.(*ast.FuncLit)
+							if !ok || !ok2 || kid.Name != fname {
+								continue
+							}
+							sig, ok := p.TypesInfo.TypeOf(lit).(*types.Signature)
+							if !ok {
+								continue
+							}
+							obj := types.NewFunc(lit.Pos(), p.Types, key, sig)
+							fd := &ast.FuncDecl{Name: &ast.Ident{NamePos: lit.Pos(), Name: key}, Type: lit.Type, Body: lit.Body}
+							return obj, fd, p
+						}
+					}
+				}
+			}
+		}
+	}
 	return nil, nil, nil
 }
 
